@@ -12,29 +12,42 @@ Open Scope Z_scope.
 Definition c02_expand_rle (runs : list (Z * Z)) : list Z :=
   concat (map (fun p => repeat (snd p) (Z.to_nat (fst p))) runs).
 
+(** the bits of a word by shifting (linear in the width; [bits] tests every bit separately) *)
+Fixpoint bits_fast (n : nat) (z : Z) : list bool :=
+  match n with
+  | O => []
+  | S k => Z.odd z :: bits_fast k (Z.div2 z)
+  end.
+
+(** offsets of the 1-bits inside one word, ascending *)
+Definition word_ones (w : Z) : list Z := ones_from 0 (bits_fast 64 w).
+
 (** first 1-bit of the words [ws] standing at bit position [base]; [dflt] when there is none *)
 Fixpoint lin_next (ws : list Z) (base dflt : Z) : Z :=
   match ws with
   | [] => dflt
-  | w :: t => match ones_from base (bits 64 w) with
-              | x :: _ => x
-              | [] => lin_next t (base + 64) dflt
-              end
+  | w :: t => if w =? 0 then lin_next t (base + 64) dflt
+              else match word_ones w with
+                   | x :: _ => base + x
+                   | [] => lin_next t (base + 64) dflt
+                   end
   end.
 
-(** the [i]-th 1-bit from [base] on and the one after it ([dflt] when it is the last) *)
+(** the [i]-th 1-bit from [base] on and the one after it ([dflt] when it is the last): whole words are skipped
+    by their bit count, only the word that holds the answer is taken apart *)
 Fixpoint lin_sel (ws : list Z) (base i dflt : Z) : option (Z * Z) :=
   match ws with
   | [] => None
   | w :: t =>
-      let os := ones_from base (bits 64 w) in
-      let c := zlen os in
+      let c := popcount w in
       if c <=? i then lin_sel t (base + 64) (i - c) dflt
-      else Some (nth (Z.to_nat i) os 0,
-                 match skipn (S (Z.to_nat i)) os with
-                 | x :: _ => x
-                 | [] => lin_next t (base + 64) dflt
-                 end)
+      else
+        let os := word_ones w in
+        Some (base + nth (Z.to_nat i) os 0,
+              match skipn (S (Z.to_nat i)) os with
+              | x :: _ => base + x
+              | [] => lin_next t (base + 64) dflt
+              end)
   end.
 
 (** [None]: i outside [0, number of 1-bits) *)
@@ -51,10 +64,14 @@ Fixpoint pick32r (r : nat) (l : list Z) : list Z * nat :=
               end
   end.
 
+(** a word with no more 1-bits than are still to be skipped contributes no checkpoint *)
 Fixpoint lin_idx (ws : list Z) (base : Z) (r : nat) : list Z :=
   match ws with
   | [] => []
-  | w :: t => let (p, r') := pick32r r (ones_from base (bits 64 w)) in p ++ lin_idx t (base + 64) r'
+  | w :: t =>
+      let c := Z.to_nat (popcount w) in
+      if (c <=? r)%nat then lin_idx t (base + 64) (r - c)
+      else let (p, r') := pick32r r (word_ones w) in map (Z.add base) p ++ lin_idx t (base + 64) r'
   end.
 
 Definition lin_IndexSelect32 (ws : list Z) : list Z := lin_idx ws 0 0.
